@@ -1,6 +1,6 @@
 (* C14 property theorems. Nothing but statements closed by `exact lemma` and Print Assumptions. *)
 From Coq Require Import ZArith List Bool Lia.
-From OG Require Import C14.Model C14.Proofs C14.Inv C14.XModel C14.XProofs C14.XInv C14.XNode C14.XAgree.
+From OG Require Import C14.Model C14.Proofs C14.Inv C14.XModel C14.XProofs C14.XInv C14.XNode C14.XAgree C14.XAgreeIx C14.LK.
 Import ListNotations.
 Open Scope Z_scope.
 
@@ -254,7 +254,7 @@ Proof.
     + eexists _, _. split; [left; reflexivity|]. cbn. split; [left; reflexivity|]. cbn. auto.
     + eexists _, _. split; [right; left; reflexivity|]. cbn. split; [left; reflexivity|]. cbn. auto.
   - intros i [<-|[]] _; unfold listed_index; cbn.
-    eexists _, _. split; [left; reflexivity|]. cbn. split; [left; reflexivity|]. cbn. auto.
+    eexists _, _. split; [left; reflexivity|]. cbn. split; [left; reflexivity|]. cbn. repeat split; auto; lia.
   - intros s [<-|[<-|[]]] _; reflexivity.
   - intros s s' [<-|[<-|[]]] [<-|[<-|[]]]; cbn; intros; auto; discriminate.
 Qed.
@@ -302,4 +302,57 @@ Example C14_clip_example :
     = [(1, 0, H); (2, H, 12 * H); (3, - (12 * H), 0)] /\
   map (fun g => (sg_id g, sg_start g - 472140 * H, sg_end g - 472140 * H)) (c_sgs (x_cat (fst (xrun true true false (xworld0 ps 1) es))))
     = [(1, 0, H); (2, 0, 12 * H); (3, - (12 * H), 0)].
+Proof. vm_compute. auto. Qed.
+
+(* -- the node's INDEXES agree with the catalogue: the invariant part of NodeOK's index premise -- *)
+(* After EVERY trace (repaired index-group choice, any pruning / clipping variant): each index a store node holds has an
+   id the catalogue issued, belongs to the policy of, and ENDS NO EARLIER THAN, every catalogue index group that still
+   lists that id. (No earlier, not equal: a store learns the span of a new index through getIndexGroupTimeRange, an
+   id-range lookup scanned from the latest-ending group; with interleaved ids it can only err towards a later end. The
+   proof uses: index ids ascend inside a group, the policy's groups are kept sorted by end, no id is re-issued.)
+   NodeOK's premise nk_ix is weakened accordingly (ig_end <= xi_end); what remains unproved of it is that the index sits
+   on the partition the catalogue assigns it to. *)
+Theorem C14_node_indexes_agree_all_traces : forall repP clip es ps n i ig ci,
+  let w := fst (xrun true repP clip (xworld0 ps n) es) in
+  In i (x_ixs w) -> xi_id i <= c_maxix (x_cat w) /\
+  (In ig (c_igs (x_cat w)) -> In ci (ig_ixs ig) -> ci_id ci = xi_id i -> ig_end ig <= xi_end i /\ ig_rp ig = xi_rp i).
+Proof.
+  intros repP clip es ps n i ig ci w Hi.
+  destruct (NodeIxAgree_xrun repP clip es (xworld0 ps n) (AI_init ps n) (NodeIxAgree_init ps n) i Hi) as (B & A).
+  split; [exact B|]. intros H1 H2 E. apply (A ig ci H1 H2 E).
+Qed.
+Print Assumptions C14_node_indexes_agree_all_traces.
+
+(* the id-range lookup itself: for an index that a group of the policy really holds, it returns a group that ends no earlier *)
+Theorem C14_index_span_lookup_covers : forall c rp ig ci,
+  AscIx c -> In ig (c_igs c) -> ig_rp ig = rp -> In ci (ig_ixs ig) ->
+  exists g', ix_group_of c rp (ci_id ci) = Some g' /\ ig_end ig <= ig_end g'.
+Proof. exact ix_group_of_covers. Qed.
+
+(* ======================================================================================================
+   LogKeeper flavour (LK.v): two-phase deletion - mark (hidden from every read), physical removal 24h later, recall. *)
+
+(* SAFETY over every history of group creation / ALTER / passes at any clock readings / recalls: whatever is physically
+   removed belongs to a group that was marked at a reading t at which it was expired under the duration then in force
+   (d <> 0, end + d < t), whose mark was not recalled since, and at least 24h have passed since the mark. *)
+Theorem C14_logkeeper_safety : forall es w0 r,
+  LInv w0 -> In r (snd (lk_run w0 es)) ->
+  exists g t, lg_id g = ld_gid r /\ lg_mark g = Some t /\ lg_markd g <> 0 /\ lg_end g + lg_markd g < t /\ t + DAY <= ld_now r.
+Proof. exact lk_safety. Qed.
+Print Assumptions C14_logkeeper_safety.
+Theorem C14_logkeeper_inv_init : forall d, LInv {| l_d := d; l_groups := [] |}.
+Proof. intros d g t []. Qed.
+
+(* raising (or un-limiting) the duration BEFORE the mark keeps the group; a recall cancels every pending deletion *)
+Theorem C14_logkeeper_raise_before_mark_keeps : forall w now g,
+  In g (l_groups w) -> lg_mark g = None -> expired (l_d w) (lg_end g) now = false -> In g (l_groups (fst (lk_tick w now))).
+Proof. exact lk_raise_before_mark. Qed.
+Theorem C14_logkeeper_recall_cancels : forall w now, snd (lk_tick (lk_recall w) now) = [].
+Proof. exact lk_recall_cancels. Qed.
+(* documented behaviour, not a defect (NOTES section 9): a raise AFTER the mark is not a recall *)
+Example C14_logkeeper_raise_after_mark_is_not_a_recall :
+  let H := 3600000000000 in
+  snd (lk_run {| l_d := H; l_groups := [] |} [LAdd 1 (10 * H) [1; 2]; LTick (11 * H + 1); LAlter 0; LTick (11 * H + 1 + DAY)])
+    = [{| ld_gid := 1; ld_sid := 1; ld_now := 11 * H + 1 + DAY |}; {| ld_gid := 1; ld_sid := 2; ld_now := 11 * H + 1 + DAY |}] /\
+  snd (lk_run {| l_d := H; l_groups := [] |} [LAdd 1 (10 * H) [1; 2]; LTick (11 * H + 1); LAlter 0; LRecall; LTick (11 * H + 1 + DAY)]) = [].
 Proof. vm_compute. auto. Qed.
